@@ -1749,7 +1749,8 @@ class Result:
         return isinstance(o,Result) \
            and o.environments == self.environments \
            and o.learners == self.learners \
-           and o.evaluators == self.evaluators
+           and o.evaluators == self.evaluators \
+           and o.interactions == self.interactions
 
     def _ipython_display_(self):
         #pretty print in jupyter notebook (https://ipython.readthedocs.io/en/stable/config/integrating.html)
